@@ -15,7 +15,9 @@ def corpus():
 
 def generate(rng, tier):
     yield from R.search_cases(tier)
+    yield from R.scale_cases(tier)
     yield from R.smoke_cases(rng, 12 if tier == 'quick' else 300)
+    yield from R.smoke_scale_cases()
     for _ in range(120 if tier == 'quick' else 12000):
         yield R.gen_case(rng, tier)
 
